@@ -8,7 +8,7 @@ import nauyaca.server.middleware as mw
 from nauyaca.server.config import ServerConfig
 from nauyaca.server.middleware import AccessControl, AccessControlConfig
 
-from vf import Ob, V, pick
+from vf import HarnessError, Ob, V, pick
 from vf.capture import capture, inner_protocol
 from vf.smt import decide
 from vf.stubs import drive
@@ -27,10 +27,21 @@ class SymNet:
     def __contains__(self, addr):
         return addr.version == self.version and self.lo <= addr.value <= self.hi
 
+    def __getattr__(self, name):
+        # an implementation that looks at anything else (netmask, network_address, ...) is outside
+        # what this contract stub models: machinery error, never a verdict about nauyaca
+        raise HarnessError("SymNet does not model attribute %r" % name)
+
 
 class SymAddr:
     def __init__(self, version, value):
         self.version, self.value = version, value
+
+    def __getattr__(self, name):
+        raise HarnessError("SymAddr does not model attribute %r" % name)
+
+    def __int__(self):
+        raise HarnessError("SymAddr does not model int()")
 
 
 def logic(nd: int, d1v: int, d1lo: int, d1hi: int, d2v: int, d2lo: int, d2hi: int,
@@ -47,20 +58,28 @@ def logic(nd: int, d1v: int, d1lo: int, d1hi: int, d2v: int, d2lo: int, d2hi: in
     """
     deny = [SymNet(d1v, d1lo, d1hi), SymNet(d2v, d2lo, d2hi)][:nd]
     allow = [SymNet(a1v, a1lo, a1hi), SymNet(a2v, a2lo, a2hi)][:na]
-    ac = AccessControl.__new__(AccessControl)
-    ac.config = AccessControlConfig(default_allow=default_allow)
-    ac.deny_networks = deny
-    ac.allow_networks = allow
+    table = {"d0": deny[0] if nd > 0 else None, "d1": deny[1] if nd > 1 else None,
+             "a0": allow[0] if na > 0 else None, "a1": allow[1] if na > 1 else None}
+
+    def fake_ip_network(text, strict=True):
+        return table[text]
 
     def fake_ip_address(s):
         if malformed:
             raise ValueError("does not appear to be an IPv4 or IPv6 address")
         return SymAddr(pv, pval)
+    mw.ip_network = fake_ip_network
     mw.ip_address = fake_ip_address
     try:
+        # the real constructor runs (whatever it precomputes), the list entries are keys of ``table``
+        ac = AccessControl(AccessControlConfig(allow_list=["a0", "a1"][:na] or None, deny_list=["d0", "d1"][:nd] or None,
+                                               default_allow=default_allow))
         (ok, resp), exc = drive(ac.process_request("gemini://h/", "peer-address-text"))
     finally:
         mw.ip_address = ipaddress.ip_address
+        mw.ip_network = ipaddress.ip_network
+    if isinstance(exc, HarnessError):
+        raise exc
     if exc is not None:
         return V(False)
     # the property, written independently
@@ -105,7 +124,7 @@ def cidr_lemma():
 ALLOW = [None, [], ["10.0.0.0/8"], ["10.0.0.0/8", "2001:db8::/32"], ["10.0.0.0/33"], ["10.0.0.1/8"], ["not-an-ip"]]
 NGOOD_A, NGOOD_D = 4, 4
 DENY = [None, [], ["10.1.0.0/16"], ["10.1.0.0/16", "2001:db8:1::/48"], ["::1/129"]]
-PEERS = ["10.1.2.3", "10.2.0.1", "192.0.2.1", "2001:db8:1::5", "2001:db8:2::5", "bogus", "2001:db9::1", "10.1.2", "fe80::1%eth0"]
+PEERS = ["10.1.2.3", "10.2.0.1", "192.0.2.1", "2001:db8:1::5", "2001:db8:2::5", "bogus", "2001:db9::a02:1", "10.1.2", "fe80::1%eth0"]
 IN_ALLOW = [{1: 0, 2: 0}, {}, {"10.1.2.3", "10.2.0.1"}, {"10.1.2.3", "10.2.0.1", "2001:db8:1::5", "2001:db8:2::5"}]
 IN_DENY = [set(), set(), {"10.1.2.3"}, {"10.1.2.3", "2001:db8:1::5"}]
 UNPARSEABLE = {"bogus", "10.1.2"}
@@ -162,7 +181,7 @@ def _config(enabled, ai, di, default_allow, pi, rate):
 
 def config_lists(ai: int, di: int, default_allow: bool, pi: int) -> bool:
     """
-    pre: 0 <= ai < NGOOD_A and 0 <= di < NGOOD_D and 0 <= pi < 6
+    pre: 0 <= ai < NGOOD_A and 0 <= di < NGOOD_D and 0 <= pi < 7
     post: _
     """
     return _config(True, ai, di, default_allow, pi, False)
@@ -229,6 +248,16 @@ def text_boundaries():
                     n += 1
                     if got != want:
                         bad.append((cidr, mode, str(mk_addr(ipi)), got, want))
+                # the other address family never matches, whatever its integer value looks like
+                other = ipaddress.IPv6Address if w == 32 else ipaddress.IPv4Address
+                for ipi in (base, base + size - 1):
+                    ov = ipi if w == 32 else ipi & 0xFFFFFFFF
+                    for val in ({ov, (0x20010DB8 << 96) | ov} if w == 32 else {ov}):
+                        want = False if mode == "allow" else True
+                        got = ac._is_allowed(str(other(val)))
+                        n += 1
+                        if got != want:
+                            bad.append((cidr, mode, str(other(val)), got, want))
             samples.append({"cidr": cidr, "probed": len(cands) * 2})
     return {"state": "DIFF", "verdict": "confirmed" if not bad else "refuted", "queries": n, "paths": n,
             "message": "" if not bad else "real AccessControl disagrees with the integer oracle: %r" % (bad[:3],),
@@ -263,7 +292,7 @@ OBLIGATIONS = [
        functions=["ipaddress._BaseNetwork.__contains__ (transcribed)", "ipaddress._ip_int_from_prefix (transcribed)"]),
     Ob("config_lists", config_lists, quick=400, thorough=1200,
        symbolic="allow-list form (absent / empty / 1 / 2 entries), deny-list form (absent / empty / 1 / 2 entries), default policy, "
-                "peer (6 incl. an unparseable one); access control enabled, no rate limiter",
+                "peer (7 incl. an unparseable one and an IPv6 address whose low 32 bits equal an allowed IPv4 address); access control enabled, no rate limiter",
        functions=["ServerConfig.get_access_control_config", "get_rate_limit_config", "start_server (assembly)", "AccessControl.__init__", "MiddlewareChain.process_request"], stubs=["ServerCapture (MiniLoop.create_server, TLS context factories, logging)"], note="discrete dimensions"),
     Ob("config_bad_entries", config_bad_entries, quick=300, thorough=900,
        symbolic="at least one list holds an entry that cannot be interpreted (prefix too long, host bits set, not an address)",
